@@ -32,6 +32,7 @@ FIX = [ # (id, commit, property, checks, what failed)
  ("F30","d8d7c3a","C18",["C18"],"the losing decoding of a racing LazyValue::as_str leaked its String buffer (released as Arc<()>)"),
  ("F31","5db80dd","C17",["C17"],"BitMask::clear_high_bits(LEN) overflowed the shift"),
  ("F32","dccae5b","C20",["C20"],"errors made by derive code of untagged / internally tagged enums ('did not match any variant') had line 0 / column 0"),
+ ("F35","c784046","C20",["C20","C09"],"lossy-mode Deserializer::deserialize::<Value> reported error positions of the repaired copy (offset beyond the input) and advanced the reader by the bytes consumed in the copy (next stream document misplaced, subtract overflow)"),
  ("F34","4402712","C19",["C19"],"from_value rejected an empty tuple variant ({\"V\":[]}: 'invalid type: null, expected tuple variant') that from_str of the same text accepts"),
 ]
 only = sys.argv[1:]
